@@ -53,6 +53,7 @@ type FuncContract struct {
 	Binds    []Bind
 	Callsite []CallsiteClause
 	Lets     []Clause // function-level definitions evaluated at entry: Label = name
+	Fresh    []string // field names: every value stored into such a field in this function must be a fresh slice
 	MustRead []string // receiver fields the function (transitively) must read
 	NoRead   []string // receiver fields the function (transitively) must not read
 	Cache    []string // receiver fields that are memoisation caches (writes ignored by the readonly analysis)
@@ -126,7 +127,7 @@ var (
 )
 
 var clauseKeywords = map[string]bool{"func": true, "spec": true, "lemma": true, "property": true, "ghost": true, "requires": true,
-	"ensures": true, "loop": true, "invariant": true, "decreases": true, "flags": true, "bind": true, "callsite": true, "let": true, "hint": true, "noread": true, "cache": true, "mustread": true, "global": true}
+	"ensures": true, "loop": true, "invariant": true, "decreases": true, "flags": true, "bind": true, "callsite": true, "let": true, "hint": true, "noread": true, "cache": true, "mustread": true, "global": true, "fresh": true}
 
 func parseParams(s string) ([]Param, error) {
 	s = strings.TrimSpace(s)
@@ -379,6 +380,11 @@ func (cs *Contracts) ParseFile(path, pkgName string) error {
 			}
 			cs.Globals = append(cs.Globals, GlobalClause{Pkg: pkgName, Var: fs[0], Mutator: fs[2], Because: because})
 			curF, curL, curLoop = nil, nil, nil
+		case "fresh":
+			if curF == nil {
+				return fail(l, "fresh outside func")
+			}
+			curF.Fresh = append(curF.Fresh, strings.FieldsFunc(rest, func(r rune) bool { return r == ',' || r == ' ' })...)
 		case "mustread":
 			if curF == nil {
 				return fail(l, "mustread outside func")
